@@ -81,6 +81,15 @@ var settingsTypes = map[string]settingsType{
 func checkSettingsImmutable(w *World, r *Report, rule string, names ...string) {
 	e := newTermEnv(w)
 	for _, nm := range names {
+		// "Type:FieldA|FieldB" restricts field writes to the settings this property depends on
+		var only map[string]bool
+		if i := strings.Index(nm, ":"); i >= 0 {
+			only = map[string]bool{}
+			for _, f := range strings.Split(nm[i+1:], "|") {
+				only[f] = true
+			}
+			nm = nm[:i]
+		}
 		st, ok := settingsTypes[nm]
 		if !ok {
 			r.Unknown(rule, "settings type "+nm, "-", "not in the table")
@@ -91,7 +100,7 @@ func checkSettingsImmutable(w *World, r *Report, rule string, names ...string) {
 		for _, cw := range ws {
 			key := relPkg(cw.Fn) + "." + cw.Fn.Name()
 			if cw.Field != "" {
-				if st.free[cw.Field] {
+				if st.free[cw.Field] || (only != nil && !only[cw.Field]) {
 					continue
 				}
 				construct := fmt.Sprintf("%s.%s written in %s", st.name, cw.Field, key)
